@@ -53,14 +53,11 @@ def main():
     src = os.path.abspath(a.dir)
     meta = json.load(open(os.path.join(src, "meta.json")))
     patch = os.path.join(src, "patch.diff")
-    # every scratch copy has its own path, hence its own entries in the Go build cache: trim it before it fills the disk
-    try:
-        out = subprocess.run(["du", "-s", os.path.expanduser("~/.cache/go-build")], capture_output=True, text=True).stdout.split()
-        if out and int(out[0]) > 40 * 1024 * 1024:
-            subprocess.run(["go", "clean", "-cache"], env=ENV)
-    except Exception:
-        pass
     tmp = tempfile.mkdtemp(prefix="verif-seed-")
+    # every scratch copy has its own path, hence its own entries in the Go build cache: a private cache that goes away
+    # with the scratch copy keeps the shared one from filling the disk (and nobody has to trim it under running builds)
+    ENV["GOCACHE"] = os.path.join(tmp, "gocache")
+    os.environ["GOCACHE"] = ENV["GOCACHE"]
     res = {"validated_at_repo_head": subprocess.run(["git", "-C", "/repo", "rev-parse", "--short", "HEAD"], capture_output=True, text=True).stdout.strip()}
     try:
         clean, mut = os.path.join(tmp, "clean"), os.path.join(tmp, "mut")
